@@ -188,6 +188,15 @@ func runCheck(spec *Spec, tier string, seed int64) int {
 	fmt.Printf("[%s] loaded SSA in %.1fs\n", spec.ID, time.Since(t0).Seconds())
 
 	jobs := spec.Jobs(tier)
+	if only := os.Getenv("GOSYM_ONLY"); only != "" {
+		var sel []Job
+		for _, j := range jobs {
+			if strings.Contains(j.Name(), only) {
+				sel = append(sel, j)
+			}
+		}
+		jobs = sel
+	}
 	rc.runJobs(jobs)
 
 	if spec.Extra != nil {
@@ -356,15 +365,19 @@ func (rc *RunCtx) replayNative(j Job, model map[string]uint64, keepDir string) r
 		args = append(args, fmt.Sprint(a))
 	}
 	extra := ""
+	imports := ""
 	if j.Pkg == "rules" {
 		extra = "\tfor _, s := range verifRealised {\n\t\tt.Log(\"VERIF-RULE: \" + s)\n\t}\n"
+	} else if _, ok := rc.OverlayFiles[filepath.Join(repoDir, "rules", "zz_verif_export.go")]; ok {
+		imports = "\tvrules \"github.com/AdguardTeam/urlfilter/rules\"\n"
+		extra = "\tfor _, s := range vrules.VerifRealised() {\n\t\tt.Log(\"VERIF-RULE: \" + s)\n\t}\n"
 	}
 	test := fmt.Sprintf(`package %s
 
 import (
 	"strings"
 	"testing"
-)
+%s)
 
 // Replay of a solver counterexample for harness %s (model: model.json next to this file).
 func TestVerifReplay(t *testing.T) {
@@ -374,7 +387,7 @@ func TestVerifReplay(t *testing.T) {
 		t.Fatal(out)
 	}
 }
-`, info[2], j.Name(), j.Func, strings.Join(args, ", "), extra)
+`, info[2], imports, j.Name(), j.Func, strings.Join(args, ", "), extra)
 	testPath := filepath.Join(dir, "replay_test.go")
 	os.WriteFile(testPath, []byte(test), 0o644)
 	repl := map[string]string{}
